@@ -50,51 +50,93 @@ func releaseNameIfNotNil(n Name) {
 }
 
 func ReleaseA(r *A) {
+	if verifObjRelease(r) {
+		return
+	}
 	releaseNameIfNotNil(r.Name)
 	*r = A{}
+	if verifObjQuarantine(r) {
+		return
+	}
 	poolA.Put(r)
 }
 
 func ReleaseAAAA(r *AAAA) {
+	if verifObjRelease(r) {
+		return
+	}
 	releaseNameIfNotNil(r.Name)
 	*r = AAAA{}
+	if verifObjQuarantine(r) {
+		return
+	}
 	poolAAAA.Put(r)
 }
 
 func ReleaseMX(r *MX) {
+	if verifObjRelease(r) {
+		return
+	}
 	releaseNameIfNotNil(r.Name)
 	releaseNameIfNotNil(r.MX)
 	*r = MX{}
+	if verifObjQuarantine(r) {
+		return
+	}
 	poolMX.Put(r)
 }
 
 func ReleaseNAME(r *NAMEResource) {
+	if verifObjRelease(r) {
+		return
+	}
 	releaseNameIfNotNil(r.Name)
 	releaseNameIfNotNil(r.NameData)
 	*r = NAMEResource{}
+	if verifObjQuarantine(r) {
+		return
+	}
 	poolNAME.Put(r)
 }
 
 func ReleaseSOA(r *SOA) {
+	if verifObjRelease(r) {
+		return
+	}
 	releaseNameIfNotNil(r.Name)
 	releaseNameIfNotNil(r.NS)
 	releaseNameIfNotNil(r.MBox)
 	*r = SOA{}
+	if verifObjQuarantine(r) {
+		return
+	}
 	poolSOA.Put(r)
 }
 
 func ReleaseSRV(r *SRV) {
+	if verifObjRelease(r) {
+		return
+	}
 	releaseNameIfNotNil(r.Name)
 	releaseNameIfNotNil(r.Target)
 	*r = SRV{}
+	if verifObjQuarantine(r) {
+		return
+	}
 	poolSRV.Put(r)
 }
 
 func ReleaseRaw(r *RawResource) {
+	if verifObjRelease(r) {
+		return
+	}
 	releaseNameIfNotNil(r.Name)
 	if r.Data != nil {
 		pool.ReleaseBuf(r.Data)
 	}
 	*r = RawResource{}
+	if verifObjQuarantine(r) {
+		return
+	}
 	poolRaw.Put(r)
 }
